@@ -39,6 +39,9 @@ def reset():
     _sum_nodes = []
     _sum_index = {}
     _lin_view = {}
+    global _fn_apps, _fn_app_list
+    _fn_apps = {}
+    _fn_app_list = []
 
 
 def atom(payload):
@@ -475,10 +478,26 @@ def cmp_bit(op, a, b):
 
 # ---------------------------------------------------------------- uninterpreted functions
 
+_fn_apps = {}      # (name, args) -> application id
+_fn_app_list = []  # id -> (name, args)
+
+
 def ufn(name, args, out_width):
-    """Uninterpreted function application; args: tuple of BVs (hashable)."""
+    """Uninterpreted function application; args: tuple of BVs.  Applications are interned so that
+    the per-bit atoms stay small."""
     args = tuple(tuple(a) for a in args)
-    return tuple(abit(("fn", name, args, i)) for i in range(out_width))
+    k = (name, args)
+    aid = _fn_apps.get(k)
+    if aid is None:
+        aid = len(_fn_app_list)
+        _fn_app_list.append(k)
+        _fn_apps[k] = aid
+    return tuple(abit(("fn", name, aid, i)) for i in range(out_width))
+
+
+def fn_args(p):
+    """Arguments of an 'fn' atom payload."""
+    return _fn_app_list[p[2]][1]
 
 
 # ---------------------------------------------------------------- evaluation (witnesses, oracle self-test)
@@ -548,7 +567,7 @@ class Evaluator:
             key = ("fnval", p[1], p[2])
             val = self.memo.get(key)
             if val is None:
-                val = f(*[self.bv(x) for x in p[2]])
+                val = f(*[self.bv(x) for x in fn_args(p)])
                 self.memo[key] = val
             r = (val >> p[3]) & 1
         else:
@@ -610,7 +629,7 @@ def support(bv, limit=2000000):
         elif k == "cmp":
             push_bv(p[2]); push_bv(p[3])
         elif k == "fn":
-            for t in p[2]:
+            for t in fn_args(p):
                 push_bv(t)
     return out
 
